@@ -470,6 +470,11 @@ theorem Inv1.step {s : AState} (i : Inv1 s) (op : Op) (hop : OpOK s.key op) : In
     · split
       · exact i
       · apply Inv1.setW; apply Inv1.handleSpend; exact Inv1.setW i _
+  | spendT pos t h =>
+    simp only [Pool.C08.step]
+    split
+    · exact i
+    · apply Inv1.setW; apply Inv1.handleSpend; exact Inv1.setW i _
   | spendDirect k h =>
     simp only [Pool.C08.step]
     split
